@@ -21,7 +21,8 @@
 (*    depth of THIS attempt's lasti_before, taken from CPython's own        *)
 (*    exception table (Tr.hd, computed by the harness with the dis module); *)
 (*  - a snapshot is returned only after a final re-check that saw           *)
-(*    lasti_before, and has exactly the announced length;                   *)
+(*    lasti_before, and has exactly the announced length; the blocks        *)
+(*    returned with it are the handler chain of that same lasti_before;     *)
 (*  - at most MaxAttempts attempts; giving up only after the last one.      *)
 (* Batched: tid picks a trace; the verdict of each is a field of its EMIT.  *)
 (***************************************************************************)
@@ -73,7 +74,12 @@ TEnd == /\ More /\ Ev.e = "end"
              [] Ev.result = "giveup" -> ipc = "end" /\ result = "giveup" /\ attempt = MaxAttempts
              [] Ev.result = "raised" -> ipc \in {"mustretry", "header"}       \* an assertion failed and f_lasti was back at lasti_before: rejected
              [] OTHER -> FALSE
-        /\ UNCHANGED <<vars, verdict>> /\ Step /\ UNCHANGED tid
+        \* the block list returned with the snapshot is the handler chain of lasti_before (computed by the harness from
+        \* CPython's exception table): stack and blocks describe ONE position
+        /\ verdict' = IF Ev.result = "ok" /\ ~Ev.blocks_ok
+                       THEN "the blocks returned with the snapshot are not the handler chain of its lasti_before"
+                       ELSE verdict
+        /\ UNCHANGED vars /\ Step /\ UNCHANGED tid
 
 TNext == TStart \/ TDeref \/ THeader \/ TSlot \/ TFinal \/ TRetry \/ TEnd
 TSpec == TInit /\ [][TNext]_tvars
